@@ -313,6 +313,19 @@ def c20_f(ctx: Ctx):
             out.append(ctx.ok(R, ld, j[0], "the v2 config loader of the migration reads the same file name as the project loader"))
         else:
             out.append(ctx.viol(R, ld, j[0], f"the migration's v2 loader reads {parts} but projects are configured in {cfgfn!r}: the version bump cannot be written / read back"))
+    for lq in (MIG + ".v0_to_v1:_load_config_v1", MIG + ".v1_to_v2:_load_config_v2"):
+        lf = ctx.fn(lq)
+        for c in [x for x in body_nodes(lf) if isinstance(x, ast.Call) and (dotted(x.func) or "").endswith("ConfigObj")]:
+            extra = [k.arg for k in c.keywords if k.arg not in ("configspec", "infile")]
+            k = lq + "|ConfigObj-options"
+            lv = kwarg(c, "list_values")
+            if lv is not None and ctx.fold(lv, lf) is False:
+                out.append(ctx.viol(R, lf, c, "the legacy config is parsed with list_values=False: quoted values keep their quotation marks, so a quoted project name is migrated into the project "
+                                    "document with literal quotes", construct=k))
+            elif extra:
+                out.append(ctx.inc(R, lf, c, f"ConfigObj called with extra options {extra}", construct=k))
+            else:
+                out.append(ctx.ok(R, lf, c, "the legacy config is parsed with ConfigObj's default value handling", construct=k))
     # workspace name
     nw = [n for n in body_nodes(f) if isinstance(n, ast.Assign) and any(isinstance(t, ast.Name) and t.id == "new_workspace" for t in n.targets)]
     pi = ctx.fn(PI)
